@@ -335,7 +335,7 @@ def run25(ctx):
         else:
             cases = gen(ctx, "GEN_GraphGc_3u.cfg", n=3, maxhidden=3, provides=False, upper=True, emit="all", spec="SpecGc", invs=GINV)
             k = 61
-            cases += gen(ctx, "GEN_GraphGc_4s.cfg", n=4, maxhidden=2, provides=False, upper=False, emit="all", spec="SpecGc",
+            cases += gen(ctx, "GEN_GraphGc_4s.cfg", n=4, maxhidden=1, provides=False, upper=False, emit="all", spec="SpecGc",
                          invs=GINV, k=k, i=ctx.seed % k)
             cases += gen(ctx, "GEN_GraphGc_3sib.cfg", n=3, maxhidden=1, provides=False, upper=False, emit="all", spec="SpecGc",
                          invs=GINV, siblings=True, k=3, i=ctx.seed % 3)
